@@ -198,7 +198,69 @@ def gen_reset_case(rng, n):
             "fsched": rng.choice([[NOCAP * 1000], [1, NOCAP * 1000]])}
 
 
-def gen_case(rng, n, big=False, reuse=False):
+def srv_in_use(cand, live):
+    return any(d == cand or d == cand + b".old" for d in live)
+
+
+def srv_pick(name, live):
+    """recv_trace_dir_name: NAME, NAME.1, NAME.2, ... - the first one no connected client is using"""
+    i, cand = 0, name
+    while srv_in_use(cand, live):
+        i += 1
+        cand = name + b".%d" % i
+    return cand
+
+
+def gen_overlap_case(rng, n):
+    """two clients that are connected AT THE SAME TIME and announce clashing directory names (the same name - e.g.
+    the default uftrace.data from two machines -, or one is the other's NAME.old), a third one with another name
+    now and then.  Order enforced through the harness: A's name and first buffers are handled, then B connects
+    and sends everything, then A sends the rest."""
+    base = rng.choice([b"uftrace.data", b"x", b"trace.dir"])
+    kind = rng.choice(["same", "same", "A.old", "B.old"])
+    na, nb = {"same": (base, base), "A.old": (base + b".old", base), "B.old": (base, base + b".old")}[kind]
+    a = gen_client(rng, 0, na)
+    b = gen_client(rng, 1, nb)
+    a["ops"] = [op for op in a["ops"] if op[0] != "sleep"]
+    cut = rng.randrange(0, len([op for op in a["ops"] if op[0] in ("data", "kernel", "perf")]) + 1)
+    a["ops"] = a["ops"][:cut] + [("post", "fa"), ("wait", "fb")] + a["ops"][cut:]
+    a["split"] = 1 + len(body_msgs({"ops": a["ops"][:cut], "files": a["files"]}))
+    b["pre_ops"] = [("wait", "fa")]
+    b["ops"] = b["ops"] + [("post", "fb")]
+    b["where"] = srv_pick(nb, [na])
+    phase = [a, b]
+    if rng.random() < 0.3:
+        phase.append(gen_client(rng, 2, b"other.data"))
+    return {"n": n, "big": False, "overlap": kind, "phases": [phase], "rsched": gen_rsched(rng),
+            "fsched": rng.choice([[NOCAP * 1000], [1, NOCAP * 1000]])}
+
+
+# sizes of metadata files at and around the sizes a sender may cut at (page, 64 KiB pieces, shmem buffer)
+META_SIZES = [0, 1, 4095, 4096, 4097, 8192, 65535, 65536, 65537, 131071, 131072, 131073, 196608, 262144, 1048576]
+
+
+def mkbytes(name, size, seed):
+    import random
+    b = random.Random(seed).randbytes(size)
+    return (MAGIC + bytes(32) + b)[:max(size, 40)] if name == b"info" else b
+
+
+def add_sized_files(rng, c, sizes):
+    """metadata files of exactly the given sizes (content from a seed: replays stay small)"""
+    spec = c.setdefault("filespec", {})
+    kinds = rng.sample(range(5 if len(sizes) > 1 else 4), len(sizes))      # (info is not sent by send_trace_metadata)
+    for sz, kd in zip(sizes, kinds):
+        name = [b"big%d.sym" % sz, b"lib%d.so.dbg" % sz, b"sid-%x.map" % sz, b"task.txt", b"info"][kd]
+        seed = rng.randrange(1 << 30)
+        spec[name.hex()] = [sz, seed]
+        c["files"][name] = mkbytes(name, sz, seed)
+    if any(op == ("meta", b"events.txt") for op in c["ops"]):
+        pass
+    c["wsched"] = rng.choice([[65536], [NOCAP * 100], [4096, -1, 100000], [8, 4, 1 << 20], [65536 + 12, 1 << 20]])
+    c["lsched"] = [1 << 20]
+
+
+def gen_case(rng, n, big=False, reuse=False, metasizes=None):
     """a case: phases (harness runs over the same server directory), each with 1-4 concurrent clients"""
     k = 1 if big else rng.choice([1, 1, 2, 2, 3, 4])
     names = rng.sample([b"a.data", b"b.data", b"uftrace.data", b"x", b"trace.dir", b"n1", b"n2"], k)
@@ -208,8 +270,10 @@ def gen_case(rng, n, big=False, reuse=False):
         c2 = gen_client(rng, 0, names[0])
         phases.append([c2])
         phase[0]["where"] = names[0] + b".old"
-    return {"n": n, "big": big, "phases": phases, "rsched": gen_rsched(rng, big),
-            "fsched": rng.choice([[NOCAP * 1000], [1, NOCAP * 1000], [-1, 7, 100000]])}
+    if metasizes:
+        add_sized_files(rng, phase[0], metasizes)
+    return {"n": n, "big": big, "phases": phases, "rsched": gen_rsched(rng, big or bool(metasizes)),
+            "fsched": rng.choice([[NOCAP * 1000], [1, NOCAP * 1000], [-1, 7, 100000]]) if not metasizes else [NOCAP * 1000]}
 
 
 # ---------------------------------------------------------------- running the harness
@@ -236,6 +300,8 @@ def write_casefile(path, srv, clients, rsched, fsched, root):
             continue
         if c.get("pre_sleep"):
             L.append("op sleep %d" % c["pre_sleep"])
+        for op in c.get("pre_ops", []):
+            L.append("op %s %s" % (op[0], os.path.join(root, op[1])))
         L.append("op dir %s" % hx(c["dir"]))
         for op in c["ops"]:
             if op[0] in ("data", "kernel", "perf"):
@@ -246,6 +312,8 @@ def write_casefile(path, srv, clients, rsched, fsched, root):
                 L.append("op meta %s" % hx(op[1]))
             elif op[0] == "sleep":
                 L.append("op sleep %d" % op[1])
+            elif op[0] in ("post", "wait"):
+                L.append("op %s %s" % (op[0], os.path.join(root, op[1])))
             else:
                 L.append("op %s" % op[0])
         if c.get("abort"):
@@ -335,15 +403,15 @@ def client_term(c, rsched, sock):
     ops = c["ops"]
     finish = [("taskfile",), ("mapfiles",), ("symfiles",), ("dbgfiles",), ("info",)]
     ndata = len([op for op in ops if op[0] in ("data", "kernel", "perf")])
-    if not c.get("abort") and [op for op in ops if op[0] not in ("data", "kernel", "perf", "sleep")] == finish:
+    if not c.get("abort") and [op for op in ops if op[0] not in ("data", "kernel", "perf", "sleep", "post", "wait")] == finish:
         files = "Some (%s)" % cdir({n: v for n, v in c["files"].items() if n != b"events.txt"})
     else:
         files = "None"
     return ("{| cc_sock := %d; cc_dir := %s; cc_where := %s; cc_body := [%s]; cc_ndata := %d; cc_files := %s; "
-            "cc_abort := %s; cc_wsched := [%s]%%Z; "
+            "cc_abort := %s; cc_split := %d; cc_wsched := [%s]%%Z; "
             "cc_rsched := [%s]%%nat; cc_wire := %s; cc_local := %s; cc_recv := %s |}" % (
                 sock, cb(c["dir"]), cb(c["where"]), "; ".join(cmsg(m) for m in body_msgs(c)), ndata, files,
-                coq.coq_bool(bool(c.get("abort"))),
+                coq.coq_bool(bool(c.get("abort"))), c.get("split", 1000000),
                 "; ".join(coq.zlit(v) for v in expand(c["wsched"], c["wcalls"])),
                 "; ".join(str(v) for v in rsched), cb(c["wire"]), cdir(c["local"] or {}), codir(c["recv"])))
 
@@ -405,18 +473,33 @@ def evaluate_dig(ctx, pairs, name):
     return coq.parse_nat_list(res["violations"])
 
 
+def evaluate_sub(ctx, pairs, name):
+    """pairs: (digest dir of the recorder's own files, digest dir received): every file of the first must be in the
+    second with the same length and digest (sub_dig)"""
+    if not pairs:
+        return []
+    fresh_blobs()
+    defs = "Definition pairs : list (list (bytes * (N * bytes)) * list (bytes * (N * bytes))) := [\n%s\n].\n" % ";\n".join(
+        "(%s, %s)" % (cdig(a), cdig(b)) for a, b in pairs)
+    defs = BL.text() + defs
+    res = coq.run_cases(ctx, name, PRE, defs, [
+        ("violations", "bad_indices (fun p => sub_dig (fst p) (snd p)) pairs 0")])
+    return None if res is None else coq.parse_nat_list(res["violations"])
+
+
 # ---------------------------------------------------------------- JSON for replays / samples
 def jcase(case):
     def jc(c):
         o = {"dir": c["dir"].hex(), "where": c["where"].hex(), "wsched": c["wsched"], "lsched": c["lsched"],
-             "files": {n.hex(): v.hex() for n, v in c["files"].items()},
+             "files": {n.hex(): v.hex() for n, v in c["files"].items() if n.hex() not in c.get("filespec", {})},
+             "filespec": c.get("filespec", {}),
              "ops": [[(x.hex() if isinstance(x, (bytes, bytearray)) else x) for x in op] for op in c["ops"]],
              "idx": c["idx"]}
-        for k in ("raw", "no_end", "abort", "after"):
+        for k in ("raw", "no_end", "abort", "after", "split", "pre_ops"):
             if k in c:
                 o[k] = [r.hex() for r in c[k]] if k == "raw" else c[k]
         return o
-    return {"big": case["big"], "rsched": case["rsched"], "fsched": case["fsched"],
+    return {"big": case["big"], "rsched": case["rsched"], "fsched": case["fsched"], "overlap": case.get("overlap"),
             "phases": [[jc(c) for c in ph] for ph in case["phases"]]}
 
 
@@ -434,13 +517,18 @@ def unjcase(j):
         c = {"idx": o["idx"], "dir": bytes.fromhex(o["dir"]), "where": bytes.fromhex(o["where"]),
              "wsched": o["wsched"], "lsched": o["lsched"],
              "files": {bytes.fromhex(n): bytes.fromhex(v) for n, v in o["files"].items()}, "ops": ops}
+        for n, (sz, seed) in o.get("filespec", {}).items():
+            c["files"][bytes.fromhex(n)] = mkbytes(bytes.fromhex(n), sz, seed)
+        c["filespec"] = o.get("filespec", {})
         if "raw" in o:
             c["raw"] = [bytes.fromhex(r) for r in o["raw"]]
-        for k in ("no_end", "abort", "after"):
+        for k in ("no_end", "abort", "after", "split"):
             if k in o:
                 c[k] = o[k]
+        if "pre_ops" in o:
+            c["pre_ops"] = [tuple(x) for x in o["pre_ops"]]
         return c
-    return {"n": 0, "big": j["big"], "rsched": j["rsched"], "fsched": j["fsched"],
+    return {"n": 0, "big": j["big"], "rsched": j["rsched"], "fsched": j["fsched"], "overlap": j.get("overlap"),
             "phases": [[uc(c) for c in ph] for ph in j["phases"]]}
 
 
@@ -451,7 +539,8 @@ def observed(case):
             def show(d):
                 if d is None:
                     return None
-                return {n.decode(errors="replace"): (v.hex() if isinstance(v, bytes) else [v[0], v[1].hex()])
+                return {n.decode(errors="replace"): ((v.hex() if len(v) <= 256 else "%d bytes, sha1 %s" % (len(v), hashlib.sha1(v).hexdigest()[:16]))
+                                                     if isinstance(v, bytes) else [v[0], v[1].hex()])
                         for n, v in sorted(d.items())}
             out.append({"dir": c["dir"].decode(), "client_exit": c.get("exit"), "local": show(c.get("local")),
                         "received": show(c.get("recv"))})
@@ -484,6 +573,14 @@ def case_tags(case):
                 t.append("tasks>=2")
     if len(case["phases"]) > 1:
         t.append("dirname-reused-sequentially")
+    if case.get("overlap"):
+        t.append("concurrent-clashing-names:" + case["overlap"])
+    for ph in case["phases"]:
+        for c in ph:
+            for n, (sz, seed) in c.get("filespec", {}).items():
+                t.append("metadata-file-size=%s" % ("k*64K" if sz and sz % 65536 == 0 else "k*64K-1" if (sz + 1) % 65536 == 0 else
+                                                    "k*64K+1" if sz > 1 and (sz - 1) % 65536 == 0 else "k*4K" if sz and sz % 4096 == 0 else
+                                                    "0" if sz == 0 else "other"))
     for ph in case["phases"]:
         for c in ph:
             if c.get("abort"):
@@ -523,6 +620,9 @@ def gen_raw(rng):
         ("unknown-type-len0", [good_dir, hdr(150, 0), data(5, b"xy"), end]),
         ("unknown-type-payload", [good_dir, hdr(150, 3) + b"zzz", end]),
         ("data-len<4", [good_dir, hdr(102, 2) + b"ab", end]),
+        ("data-len>=2^31", [good_dir, hdr(102, 0x80000004) + be32(5) + b"abc", end]),
+        ("meta-len>=2^31", [good_dir, hdr(106, 0x80000010) + be32(3) + b"abcdefgh", end]),
+        ("info-len>=2^31", [good_dir, hdr(105, 0x80000040) + bytes(40) + b"xyz", end]),
         ("truncated-payload", [good_dir, hdr(102, 4 + 10) + be32(5) + b"abc"]),
         ("truncated-header", [good_dir, hdr(102, 7)[:5]]),
         ("data-before-dir", [data(5, b"abc"), end]),
@@ -580,6 +680,13 @@ static void *work(void *a){ long n=(long)a; int s=0; for(long i=0;i<n;i++) s=lea
 int main(int argc,char**argv){ int nt=atoi(argv[1]); long n=atol(argv[2]); pthread_t t[64];
  for(int i=0;i<nt;i++) pthread_create(&t[i],0,work,(void*)n);
  for(int i=0;i<nt;i++) pthread_join(t[i],0); return 0;}
+"""
+
+
+PROG_SLOW = """
+#include <unistd.h>
+int foo(int x){return x+1;}
+int main(void){int s=foo(1); usleep(1200000); return foo(s)<0;}
 """
 
 
@@ -658,6 +765,48 @@ class Relay:
             pass
 
 
+class LocalCapture(threading.Thread):
+    """`record --host` writes task.txt, the maps, *.sym, *.dbg and info into its own directory, sends them and
+    removes the directory.  This thread hard-links every file it sees there (per inode: map files are replaced by
+    rename) so that the files OF THE SAME RUN can be compared byte for byte with what the receiver stored."""
+
+    def __init__(self, path, capdir):
+        super().__init__(daemon=True)
+        self.path, self.capdir, self.stop, self.seen = path, capdir, False, {}
+        os.makedirs(capdir, exist_ok=True)
+
+    def run(self):
+        while not self.stop:
+            try:
+                with os.scandir(self.path) as it:
+                    for e in it:
+                        try:
+                            if not e.is_file(follow_symlinks=False):      # .channel is a FIFO
+                                continue
+                            key = (e.name, e.inode())
+                            if key not in self.seen:
+                                dst = os.path.join(self.capdir, "%d" % key[1])
+                                if not os.path.exists(dst):
+                                    os.link(e.path, dst)
+                                self.seen[key] = dst
+                        except OSError:
+                            pass
+            except OSError:
+                pass
+            time.sleep(0.0003)
+
+    def versions(self):
+        """file name -> list of contents seen under that name (or under NAME.tmp, which rename() makes NAME)"""
+        out = {}
+        for (name, ino), dst in self.seen.items():
+            n = name[:-4] if name.endswith(".tmp") else name
+            try:
+                out.setdefault(n, []).append(open(dst, "rb").read())
+            except OSError:
+                pass
+        return out
+
+
 def norm_dir(uft, objdir, path, analysis=True, sort_replay=False, variant="plain"):
     """normalised view of a recorded directory: EVERY file of the directory, name -> bytes, with only the
     documented run-to-run differences removed (pids, timestamps, session ids, addresses of ASLR'd modules,
@@ -718,8 +867,9 @@ def norm_dir(uft, objdir, path, analysis=True, sort_replay=False, variant="plain
         out[b"perf-cpu*.dat"] = repr(sorted(perf_recs)).encode()
     if analysis:
         for cmd, args in (("replay", ["-f", "none"] + aopts), ("report", ["-f", "call"] + aopts)):
-            if cmd == "replay" and sort_replay:
-                continue     # several threads: leaf folding in replay depends on the timing of the run
+            if cmd == "replay" and (sort_replay or VARIANTS[variant][3]):
+                continue     # several threads / context-switch events: the folding of leaf calls (`f();` vs `f() {` `}`)
+                             # in replay depends on the timing of the run
             rc, o, e = sh(["timeout", "30", uft, cmd, "--no-pager", "-d", path] + args, timeout=40)
             o = re.sub(r"0x[0-9a-f]{6,}", "PTR", o)       # pointer-valued arguments (stack addresses)
             if cmd == "report":      # ordered by total time
@@ -798,6 +948,8 @@ def build_progs(ctx):
     open(os.path.join(root, "pm.c"), "w").write(PROG_MT)
     sh(["gcc", "-pg", "-g", "-no-pie", "-O0", "-o", os.path.join(root, "ps"), os.path.join(root, "ps.c")], check=True)
     sh(["gcc", "-pg", "-g", "-no-pie", "-O1", "-o", os.path.join(root, "pm"), os.path.join(root, "pm.c"), "-lpthread"], check=True)
+    open(os.path.join(root, "pw.c"), "w").write(PROG_SLOW)
+    sh(["gcc", "-pg", "-g", "-no-pie", "-O0", "-o", os.path.join(root, "pw"), os.path.join(root, "pw.c")], check=True)
     return os.path.join(root, "ps"), os.path.join(root, "pm")
 
 
@@ -825,8 +977,11 @@ def e2e_round(ctx, objdir, progs, rnd, spec):
             rc, o, e = sh(record_cmd(uft, objdir, extra, "local.data", prog, VARIANTS[variant][3]), cwd=cwd, timeout=60)
             if rc != 0:
                 ctx.broken("e2e: local uftrace record failed rc=%d: %s" % (rc, (o + e)[-300:]))
+        caps = []
         for i, (extra, prog, kind, variant) in enumerate(runs):
             cwd = os.path.join(root, "cwd%d" % i)
+            caps.append(LocalCapture(os.path.join(cwd, "net%d.data" % i), os.path.join(root, "cap%d" % i)))
+            caps[-1].start()
             procs.append(subprocess.Popen(
                 record_cmd(uft, objdir, extra + ["--host", "127.0.0.1", "--port", str(relay.port)],
                            "net%d.data" % i, prog, VARIANTS[variant][3]), cwd=cwd, stdout=subprocess.PIPE, stderr=subprocess.STDOUT))
@@ -842,8 +997,36 @@ def e2e_round(ctx, objdir, progs, rnd, spec):
         time.sleep(0.3)
         recv_died = srv.poll() is not None
     finally:
+        for c in caps if "caps" in dir() else []:
+            c.stop = True
         relay.close()
         srvout = stop_proc(srv)
+    # SAME RUN: every metadata file the recorder had in its directory == the file the receiver stored (byte for byte)
+    same_run = []
+    for i, c in enumerate(caps):
+        c.join(timeout=2)
+        rdir = os.path.join(root, "srv", "net%d.data" % i)
+        cap, rcv = {}, {}
+        for n, vers in c.versions().items():
+            if n == "default.opts" or n.startswith(".") or n.endswith(".dat"):
+                continue
+            got = open(os.path.join(rdir, n), "rb").read() if os.path.isfile(os.path.join(rdir, n)) else None
+            if n.endswith(".map") and len(vers) < 2:
+                continue      # maps are rewritten through NAME.tmp + rename(): with one version seen we may hold the old one
+            pick = got if got in vers else vers[-1]
+            cap[n.encode()] = pick
+            if got is not None:
+                rcv[n.encode()] = got
+        ctx.tag("e2e:same-run-metadata-files-captured", len(cap))
+        same_run.append((digest_dir(cap), digest_dir(rcv), {"round": rnd, "client": i, "spec": spec, "variant": runs[i][3],
+                                                            "captured": sorted(x.decode() for x in cap),
+                                                            "received": sorted(x.decode() for x in rcv)}))
+    bad = evaluate_sub(ctx, [(a, b) for a, b, _ in same_run], "e2e_same_run%d" % rnd)
+    for i in (bad or [])[:2]:
+        a, b, meta = same_run[i]
+        diff = sorted(n.decode() for n in a if b.get(n) != a[n])
+        ctx.violation("C16 violated end-to-end (same run): files the recorder had in its own directory were not stored "
+                      "identically by `uftrace recv`: %s" % ", ".join(diff), {"mode": "e2e", "case": meta, "differing": diff}, True)
     if recv_died:
         ctx.violation("C16 violated end-to-end: `uftrace recv` exited while serving well-behaved `record --host` clients "
                       "(%s): %s" % (", ".join(r[3] for r in runs), srvout[-200:]),
@@ -858,6 +1041,7 @@ def e2e_round(ctx, objdir, progs, rnd, spec):
                 "relay_chunk_sizes": dict(sorted(relay.chunks.items()))}
         out.append((digest_dir(loc) or {}, digest_dir(net), meta))
         tags = ["e2e:clients=%d" % k, "e2e:" + kind, "e2e:variant=" + variant] + \
+            (["e2e:metadata-file-size=" + ("k*64K" if int(kind[3:]) % 65536 == 0 else "k*64K-1")] if kind.startswith("sym") else []) + \
             ["e2e:chunk=%d" % c for c in relay.chunks if c in (1, 7, 8, 9, 65536)] + \
             ["e2e:file-kind=" + x for x in sorted(set(
                 "dbg" if n.endswith(b".dbg") else "sym" if n.endswith(b".sym") else "perf" if n.startswith(b"perf-") else
@@ -899,11 +1083,12 @@ def e2e_reset(ctx, objdir, progs, spec):
             own.pop(b"task.txt")
         c.sendall(msgs)
         import fcntl
-        for _ in range(200):          # until the server's kernel has everything ...
+        for _ in range(0 if spec.get("immediate") else 200):          # until the server's kernel has everything ...
             if struct.unpack("i", fcntl.ioctl(c.fileno(), 0x5411, b"\0\0\0\0"))[0] == 0:      # SIOCOUTQ
                 break
             time.sleep(0.01)
-        time.sleep(0.3)               # ... and `uftrace recv` has handled it
+        if not spec.get("immediate"):     # (immediate: the RST may overtake unread data - EPOLLIN|EPOLLHUP together)
+            time.sleep(0.3)               # ... and `uftrace recv` has handled it
         c.setsockopt(socket.SOL_SOCKET, socket.SO_LINGER, struct.pack("ii", 1, 0))
         c.close()                     # RST
         time.sleep(0.3)
@@ -920,7 +1105,8 @@ def e2e_reset(ctx, objdir, progs, spec):
             "net_files": sorted(x.decode() for x in (net or {})) if net is not None else None,
             "aborted_dir_files": {n.decode(): len(v) for n, v in (got or {}).items()} if got is not None else None}
     shutil.rmtree(root, ignore_errors=True)
-    ctx.case(key=("e2e-reset", json.dumps(spec, sort_keys=True)), tags=["e2e:connection-reset(RST)", "e2e:descriptor-reused-after-reset"],
+    ctx.case(key=("e2e-reset", json.dumps(spec, sort_keys=True)), tags=["e2e:connection-reset(RST)" + (":with-unread-data" if spec.get("immediate") else ""),
+                   "e2e:descriptor-reused-after-reset"],
              sample=None, size=len(payload))
     bad = evaluate_dig(ctx, [(digest_dir(loc) or {}, digest_dir(net))], "e2e_reset")
     fresh_blobs()
@@ -941,6 +1127,70 @@ def e2e_reset(ctx, objdir, progs, spec):
     return meta
 
 
+def e2e_same_name(ctx, objdir, progs, spec):
+    """two `uftrace record --host` running AT THE SAME TIME from different working directories with the default
+    directory name: the receiver must keep them apart (uftrace.data and uftrace.data.1), each equal to the local
+    recording of its program"""
+    uft = os.path.join(objdir, "uftrace")
+    root = os.path.join(ctx.scratch, "e2e-same")
+    shutil.rmtree(root, ignore_errors=True)
+    os.makedirs(root)
+    pw = os.path.join(os.path.dirname(progs["single"]), "pw")
+    runs = [("A", [pw]), ("B", [progs["single"], str(spec["n"])])]
+    srv, port = start_recv(uft, os.path.join(root, "srv"))
+    relay = Relay(spec["relay_seed"], port)
+    procs = []
+    try:
+        for name, prog in runs:
+            cwd = os.path.join(root, name)
+            os.makedirs(cwd)
+            rc, o, e = sh(record_cmd(uft, objdir, [], "local.data", prog), cwd=cwd, timeout=60)
+            if rc != 0:
+                ctx.broken("e2e-same-name: local uftrace record failed rc=%d: %s" % (rc, (o + e)[-300:]))
+        for name, prog in runs:
+            procs.append(subprocess.Popen(
+                record_cmd(uft, objdir, ["--host", "127.0.0.1", "--port", str(relay.port)], "uftrace.data", prog),
+                cwd=os.path.join(root, name), stdout=subprocess.PIPE, stderr=subprocess.STDOUT))
+            time.sleep(0.5)         # A (1.2 s) is still running when B starts and finishes
+        rcs = []
+        for p in procs:
+            try:
+                o, _ = p.communicate(timeout=60)
+            except subprocess.TimeoutExpired:
+                p.kill()
+                o, _ = p.communicate()
+            rcs.append((p.returncode, o.decode(errors="replace")[-300:]))
+        time.sleep(0.3)
+        recv_died = srv.poll() is not None
+    finally:
+        relay.close()
+        srvout = stop_proc(srv)
+    results = []
+    for (name, prog), where, rc in zip(runs, ("uftrace.data", "uftrace.data.1"), rcs):
+        loc = norm_dir(uft, objdir, os.path.join(root, name, "local.data"))
+        net = norm_dir(uft, objdir, os.path.join(root, "srv", where))
+        meta = {"scenario": "two clients at the same time, both with the directory name uftrace.data", "client": name,
+                "expected_directory": where, "record_rc": rc[0], "record_out": rc[1], "recv_output": srvout[-300:],
+                "spec": spec, "server_directories": sorted(os.listdir(os.path.join(root, "srv"))),
+                "local_files": sorted(x.decode() for x in (loc or {})),
+                "net_files": sorted(x.decode() for x in (net or {})) if net is not None else None}
+        results.append((digest_dir(loc) or {}, digest_dir(net), meta))
+        ctx.case(key=("e2e-same-name", name, json.dumps(spec, sort_keys=True)),
+                 tags=["e2e:concurrent-clients-same-default-dirname"], size=sum(v[0] for v in (digest_dir(net) or {}).values()))
+        if rc[0] != 0 or recv_died:
+            ctx.violation("C16 e2e: two concurrent `record --host` with the same directory name: record rc=%s, recv %s"
+                          % (rc[0], "exited" if recv_died else "alive"), {"mode": "e2e-same-name", "case": meta}, True)
+    shutil.rmtree(root, ignore_errors=True)
+    bad = evaluate_dig(ctx, [(a, b) for a, b, _ in results], "e2e_same")
+    for i in (bad or []):
+        a, b, meta = results[i]
+        diff = sorted(n.decode() for n in set(a) | set(b or {}) if (b or {}).get(n) != a.get(n))
+        ctx.violation("C16 violated end-to-end: two clients sending at once with the same directory name: directory %s "
+                      "differs from the local recording of client %s (files: %s; directories on the server: %s)"
+                      % (meta["expected_directory"], meta["client"], ", ".join(diff), meta["server_directories"]),
+                      {"mode": "e2e-same-name", "case": meta, "differing": diff}, True)
+
+
 def e2e_verdict(ctx, results):
     pairs = [(a, b) for a, b, _ in results]
     bad = evaluate_dig(ctx, pairs, "e2e")
@@ -950,6 +1200,48 @@ def e2e_verdict(ctx, results):
         ctx.violation("C16 violated end-to-end: directory stored by `uftrace recv` differs from the local recording "
                       "of the same program (files: %s)" % ", ".join(diff),
                       {"mode": "e2e", "case": meta, "differing": diff}, True)
+
+
+def sized_prog_source(extra):
+    """a C program whose functions add `extra` bytes to its .sym file: every function is one line
+    "<addr:16> <size:8> T <name>\\n" = 29 + len(name) bytes (after /tmp/seedout/C16-5/demo/gen.py)"""
+    LINE, BIG = 29, 60
+    lens = []
+    while extra >= 3 * (LINE + BIG):
+        lens.append(BIG)
+        extra -= LINE + BIG
+    rest = extra - 2 * LINE
+    lens += [rest // 2, rest - rest // 2]
+    names = [("fn%05d_" % i) + "x" * (l - 8) for i, l in enumerate(lens)]
+    out = ["int %s(int x) { return x + 1; }" % n for n in names]
+    picks = [names[0], names[len(names) // 2], names[-2], names[-1]]
+    out += ["int main(void)", "{", "\tint v = 0;"] + ["\tv = %s(v);" % n for n in picks] + ["\treturn v == %d ? 0 : 1;" % len(picks), "}"]
+    return "\n".join(out) + "\n"
+
+
+def build_sized_prog(ctx, objdir, target):
+    """a -pg program whose symbol file <prog>.sym is EXACTLY `target` bytes (a metadata file at a size where a sender
+    that cuts files into pieces may slip); returns the path or None"""
+    uft = os.path.join(objdir, "uftrace")
+    root = os.path.join(ctx.scratch, "prog")
+    os.makedirs(root, exist_ok=True)
+    exe = os.path.join(root, "pz%d" % target)
+    extra = target - 2000
+    for _ in range(6):
+        open(exe + ".c", "w").write(sized_prog_source(extra))
+        sh(["gcc", "-pg", "-no-pie", "-O0", "-o", exe, exe + ".c"], check=True)
+        tmp = exe + ".data"
+        shutil.rmtree(tmp, ignore_errors=True)
+        rc, o, e = sh(record_cmd(uft, objdir, [], tmp, [exe]), timeout=60)
+        symf = os.path.join(tmp, os.path.basename(exe) + ".sym")
+        if rc != 0 or not os.path.exists(symf):
+            return None
+        size = os.path.getsize(symf)
+        shutil.rmtree(tmp, ignore_errors=True)
+        if size == target:
+            return exe
+        extra += target - size
+    return None
 
 
 def e2e_progs(ctx, objdir):
@@ -964,14 +1256,21 @@ def e2e_progs(ctx, objdir):
         for n in os.listdir(tmp) if rc == 0 else []:
             if n.endswith((".sym", ".dbg")):
                 shutil.copy(os.path.join(tmp, n), os.path.join(symdir, n))
-    return {"single": ps, "mt": pm, "symdir": symdir}
+    progs = {"single": ps, "mt": pm, "symdir": symdir}
+    for target in ctx.n([65536], [65536, 131072, 65535]):
+        exe = build_sized_prog(ctx, objdir, target)
+        if exe is None:
+            ctx.broken("e2e: could not build a program whose .sym file has exactly %d bytes" % target)
+        else:
+            progs["sym%d" % target] = exe
+    return progs
 
 
 def e2e(ctx, objdir):
     progs = e2e_progs(ctx, objdir)
     results = []
     todo = []          # every option variant at least once per run, in a seed-dependent order
-    for rnd in range(ctx.n(3, 16)):
+    for rnd in range(ctx.n(3, 12)):
         k = [2, 3, 4, 1, 4, 2, 3, 1][rnd % 8]
         runs = []
         for i in range(k):
@@ -985,12 +1284,19 @@ def e2e(ctx, objdir):
                              [ctx.rng.choice([2, 4]), ctx.rng.choice([3000, 9000])], variant])
             else:
                 runs.append(["single", [], [ctx.rng.choice([0, 1, 3, 50, 3000])], variant])
+        sized = sorted(k for k in progs if k.startswith("sym") and k != "symdir")
+        if sized and rnd < max(1, len(sized)):
+            # a symbol file of exactly k * 64 KiB (+-1): a metadata file at a size where a chunking sender may slip
+            runs.append([sized[rnd % len(sized)], [], [], ctx.rng.choice(["plain", "srcline"])])
         spec = {"relay_seed": ctx.rng.randrange(1 << 30), "runs": runs, "stagger": ctx.rng.choice([0.0, 0.0, 0.02])}
         results += e2e_round(ctx, objdir, progs, rnd, spec)
     e2e_verdict(ctx, results)
+    for _ in range(ctx.n(1, 3)):
+        e2e_same_name(ctx, objdir, progs, {"relay_seed": ctx.rng.randrange(1 << 30), "n": ctx.rng.choice([1, 3, 50])})
     for _ in range(ctx.n(1, 4)):
         e2e_reset(ctx, objdir, progs, {"relay_seed": ctx.rng.randrange(1 << 30), "n": ctx.rng.choice([1, 3, 50]),
                                         "tid": ctx.rng.choice([7, 4242]), "with_meta": ctx.rng.random() < 0.5,
+                                        "immediate": ctx.rng.random() < 0.4,
                                         "payload": rbytes(ctx.rng, ctx.rng.choice([0, 16, 48])).hex()})
 
 
@@ -1085,7 +1391,12 @@ def common_meta(ctx):
                 "streams x random read schedules.  e2e: uftrace recv + 1-4 concurrent `record --host` through a "
                 "re-segmenting TCP relay vs local recordings, over the option variants plain / --srcline / -a / -A -R / -T arg specs "
                 "/ --with-syms / perf events / --logfile (each at least once per run), comparing the complete file sets; every 10th in-process case and one e2e scenario: a client whose "
-                "connection is reset after its directory name / some data, followed by a client on the re-used descriptor")
+                "connection is reset after its directory name / some data, followed by a client on the re-used descriptor; every "
+                "10th: two clients connected at the same time with clashing directory names (same, NAME/NAME.old); e2e also: "
+                "two `record --host` at once with the default name, and a byte-for-byte comparison of the metadata files "
+                "the recorder had in its own directory (hard-linked while it runs) with what the receiver stored; metadata "
+                "files of 0 / k*4 KiB / k*64 KiB / k*64 KiB+-1 bytes (in-process, all of META_SIZES per run) and a program "
+                "whose .sym file has exactly 64 KiB (e2e)")
     ctx.trusted = [
         "Coq 8.16.1 kernel incl. vm_compute; no axioms (Print Assumptions: closed under the global context)",
         "hand-written model coq/theories/C16/Model.v of utils/utils.c read_all/write_all/writev_all, cmds/recv.c "
@@ -1097,10 +1408,10 @@ def common_meta(ctx):
         "Linux stream-socket semantics: bytes arrive in order, read() returns any non-empty prefix",
     ]
     ctx.assume = [
-        "one writer at a time per connection (single-threaded tracee or --num-thread=1): with several writer threads "
-        "the code shares the socket without a lock - defect witness " + KEY_RACE,
-        "concurrently connected clients use directory names that are pairwise different (also from each other's "
-        "NAME.old) - otherwise their data is mixed: defect witness " + KEY_SAMEDIR,
+        "messages of one connection are sent one after the other (the recorder's writer threads serialise on the send "
+        "mutex since fix c9aa763; the unlocked code is C16_shared_socket_refuted)",
+        "the server's create_directory works on directories made by recv itself; a directory that cannot be rotated "
+        "(foreign content, bad info magic) is appended to as it is (the 'base' of C16_no_mixing)",
         "every client ends with SEND_END; a client that disconnects inside or between messages makes `uftrace recv` "
         "exit (modelled: the server dies; proved: C16_read_all_short_stream); a connection that is RESET "
         "(EPOLLERR/EPOLLHUP branch of handle_client_sock) is modelled as removal of the client entry (WHup) and "
@@ -1178,13 +1489,20 @@ def run(ctx):
     objdir, exe = setup(ctx)
     rng = ctx.rng
     # 1. small in-process cases, full model comparison
-    nsmall = ctx.n(150, 4000)
-    cases = [gen_reset_case(rng, i) if i % 10 == 7 else gen_case(rng, i, reuse=(i % 9 == 4)) for i in range(nsmall)]
+    nsmall = ctx.n(100, 2000)
+    cases = [gen_reset_case(rng, i) if i % 10 == 7 else gen_overlap_case(rng, i) if i % 10 == 3 else
+             gen_case(rng, i, reuse=(i % 9 == 4)) for i in range(nsmall)]
+    # metadata files of exactly 64 KiB (thorough: also the neighbours) with the full model comparison
+    for i, sz in enumerate(ctx.n([65536], [65536, 65535, 65537, 131072, 4096, 196608])):
+        cases[5 + 20 * i] = gen_case(rng, 5 + 20 * i, metasizes=[sz])
     per = 200
     for off in range(0, len(cases), per):
         run_small(ctx, exe, cases[off:off + per], "small%d" % (off // per))
     # 2. big payloads
-    run_big(ctx, exe, [gen_case(rng, i, big=True) for i in range(ctx.n(6, 80))])
+    sizes = list(META_SIZES)
+    rng.shuffle(sizes)
+    run_big(ctx, exe, [gen_case(rng, i, big=True, metasizes=[sizes[(3 * i + j) % len(sizes)] for j in range(3)])
+                       for i in range(ctx.n(6, 50))])
     # 3. malformed streams (model and implementation die on the same streams)
     raws = []
     for _ in range(ctx.n(1, 6)):
@@ -1231,6 +1549,8 @@ def replay(ctx, obj):
         res = e2e_round(ctx, objdir, e2e_progs(ctx, objdir), 0, obj["case"]["spec"])
         e2e_verdict(ctx, res)
         ctx.log("replayed e2e round:", json.dumps([m for _, _, m in res])[:1500])
+    elif mode == "e2e-same-name":
+        e2e_same_name(ctx, objdir, e2e_progs(ctx, objdir), obj["case"]["spec"])
     elif mode == "e2e-reset":
         ps, pm = build_progs(ctx)
         m = e2e_reset(ctx, objdir, {"single": ps, "mt": pm}, obj["case"]["spec"])
